@@ -153,7 +153,7 @@ impl Property for C07 {
         tier.pick(8_000, 200_000)
     }
     fn strategy(_tier: Tier) -> BoxedStrategy<Spec> {
-        let cfg = Cfg { min_steps: 1, max_steps: 3, max_owners: 1, max_threshold: 4, two_digests: true, ..Cfg::basic() };
+        let cfg = Cfg { min_steps: 1, max_steps: 3, max_owners: 1, max_threshold: 4, two_digests: true, big: true, ..Cfg::basic() };
         let cfg_sub = Cfg { min_steps: 1, max_steps: 2, max_owners: 1, max_threshold: 2, sub_depth: 1, multi_sub: true, ..Cfg::basic() };
         (
             prop_oneof![4 => valid_world(cfg), 1 => valid_world(cfg_sub)],
